@@ -28,9 +28,9 @@ CLAIMED = {
  "C09": ("runtime monitoring: shadow-list history checker over save / re-open / append sequences on real host files (API and both CLIs), reference parsers as independent observers, sniffed-kind recorder",
          "After every operation of generated histories the host bytes are parsed by the reference parsers and by the tool and compared with a shadow list; M7/M8 assert 'earlier bytes/files untouched' at every add_file; includes re-opening on list/bytes/bytearray copies, additions that cannot be written, a cassette that carries a picture of a disk and a disk that holds a tape image.", "6 C09"),
  "C10": ("runtime monitoring: audit-hook file-effect log + content hashes over the exhaustive CLI configuration matrix, judged by a decision table; strace as second observer",
-         "All 144 cells of the matrix (12 pre-existing target kinds) run in both tiers plus random invocation sequences; the target may change only when the decision table allows it.", "6 C10"),
+         "All 168 cells of the matrix (14 pre-existing target kinds, among them a cassette longer than a disk image whose data shows a one-file disk, and raw binaries of only $00 / $55 bytes) run in both tiers plus random invocation sequences; the target may change only when the decision table allows it.", "6 C10"),
  "C11": ("runtime monitoring: CLI outputs parsed by independent readers and compared with an in-process assembly of the same text",
-         "BIN/CAS/DSK outputs of assembler.py for generated programs are compared with the image, origin and name obtained from Program.process; file_util --list is a third witness.", "6 C11"),
+         "BIN/CAS/DSK outputs of assembler.py for generated programs are compared with the image and name obtained from Program.process and the origin read from the listing (address of the first emitted byte; programs with several leading ORGs included); file_util --list is a third witness.", "6 C11"),
  "C16": ("runtime monitoring: conservation check of file sets across file_util conversions and conversion chains, reference parsers as oracle",
          "Source images from reference writers are converted through the real CLI; the produced image must list exactly the selected files unchanged; chains must return the original set.", "6 C16"),
  "C04": ("runtime monitoring: reference expression evaluator (generator AST) vs value decoded from the emitted bytes, across operand positions, operators and symbol kinds",
